@@ -53,6 +53,8 @@ HEADERS = {
                     [["x"], ["started", "ok"], ["restart"]]),
     # a digit followed by a colon, but not followed by blank + word
     "colon-tight": (BANNER + "clock 12:30\nweight 5:(1)\nstage 4: [1][2]\n\n", []),
+    # characters outside ASCII before the plan (a path, a dash, a check mark): byte and character offsets differ from here on
+    "non-ascii": (BANNER + "problem file: /home/jos\u00e9/\u00fcbung/\u03c0-3.pddl \u2014 parsed \u2713\n\n", []),
 }
 TIME = ("time spent:    0.00 seconds instantiating 12 easy, 0 hard action templates\n"
         "               0.00 seconds reachability analysis, yielding 9 facts and 12 actions\n"
@@ -84,7 +86,7 @@ LOCAL_KINDS = ["align", "colon", "argsep"]  # the same parameter changed on one 
 RULE = ("plans: step counts {0,1,2,9,10,11,99,100,101,150} x 24 rotations of the (name, arity) alphabet "
         "{A, MOVE-UP, load_2, x1, start-waiting, FOUND-PLAN} x {0..3 arguments from A1, loc-2, i_3, 7, WAITING_ROOM1, step-0} (step i carries combination (i+rot) mod 24, "
         "so every combination occurs at every position, in particular at 9/10 and 99/100); one case = (plan, header, "
-        "trailer) with header in {none, Metric-FF banner, banner + 'task 3: x' / 'run 10: started ok' / '    4: restart' lines, banner + "
+        "trailer) with header in {none, Metric-FF banner, banner + 'task 3: x' / 'run 10: started ok' / '    4: restart' lines, banner + a line with characters outside ASCII, banner + "
         "'clock 12:30' / 'weight 5:(1)' lines} and trailer in {blank + time spent, plan cost + time spent, blank-padded "
         "line + time spent, word-only line, blank + word-only line, nothing, CRLF everywhere, unterminated last line}; "
         "inside a case every layout with <= D changed sites among 6 global ones (blank lines after the marker 0/1/2, "
